@@ -122,6 +122,14 @@ def cases(tier: str) -> T.List[Case]:
                  _vals(x='v1', n=9, sub__s='s1', buildtype='release'), _vals(x='v1', n=10, sub__s='s1', buildtype='debug'),
                  ['setup', '--reconfigure', '@B', '@S']),
         ]
+        cs += [
+            Case('configure-clearcache', 'configure', [setup1], ['configure', '@B', '--clearcache', '-Dx=v2'],
+                 v1, _vals(x='v2', n=7, sub__s='s1', buildtype='release'), ['setup', '--reconfigure', '@B', '@S']),
+            Case('reconfigure-clearcache-c', 'reconfigure', [setup1], ['setup', '--reconfigure', '--clearcache', '@B', '@S', '-Dn=11'],
+                 v1, _vals(x='v1', n=11, sub__s='s1', buildtype='release'), ['setup', '--reconfigure', '@B', '@S']),
+            Case('wipe-with-options', 'wipe', [setup1], ['setup', '--wipe', '@B', '@S', '-Dx=v9', '-Dsub:s=s9'],
+                 v1, _vals(x='v9', n=7, sub__s='s9', buildtype='release'), ['setup', '--reconfigure', '@B', '@S']),
+        ]
         # every --wipe history again under the two extreme directory-listing orders, on a directory that has a coredata.dat.prev
         for c in [c for c in cs if c.kind == 'wipe']:
             for order in ('sorted', 'reversed'):
@@ -493,6 +501,9 @@ def main() -> int:
     replay_path = os.environ.get('VERIF_REPLAY')
     tier = chk.tier
     cs = cases(tier)
+    only = os.environ.get('VERIF_C09_ONLY')     # development aid: comma separated case names
+    if only:
+        cs = [c for c in cs if c.name in only.split(',')]
     if replay_path:
         with open(replay_path, encoding='utf-8') as f:
             w = json.load(f)
